@@ -14,7 +14,7 @@ namespace GoPlugin.Props.C14
 open GoPlugin Interop
 
 def pGood : Handshake.Params := ⟨true, true, 4, 50, 1, true, true, true⟩
-def iGood : Interop.Params := ⟨true, true, true, true, true⟩
+def iGood : Interop.Params := ⟨true, true, true, true, true, true⟩
 
 /-- **The whole matrix**: in every cell the composition of the plugin's printed line, the host's
 parse and the two transport-security modes gives exactly the verdict of the specification table. -/
@@ -39,13 +39,14 @@ theorem never_broken (hc : HostC) (pc : PlugC) : compose iGood pGood hc pc ≠ .
   rw [interop]; unfold expected
   split <;> (try split) <;> (try split) <;> (try split) <;> simp
 
-/-- **The client never speaks a protocol outside its allowed list** (for a plugin it launches). -/
-theorem works_protocol_allowed (hc : HostC) (pc : PlugC) (hl : hc.launch ≠ .reattach)
+/-- **The client never speaks a protocol outside its allowed list** — for every launch method, reattach included (there
+the protocol comes from the reattach configuration, and is checked against the list all the same). -/
+theorem works_protocol_allowed (hc : HostC) (pc : PlugC)
     (h : compose iGood pGood hc pc = .works) : protoAllowed hc pc = true := by
   rw [interop] at h
   unfold expected at h
-  simp only [hl, if_false] at h
-  cases hp : protoAllowed hc pc <;> simp_all
+  cases hp : protoAllowed hc pc <;> cases hm : hc.mux <;> simp_all
+  all_goals (split at h <;> simp_all)
 
 /-- **Requesting multiplexing from a plugin that does not advertise it fails with the dedicated error**
 (whenever the protocol itself is allowed and it is gRPC). -/
@@ -79,13 +80,19 @@ theorem reattach_mux_conflict (hc : HostC) (pc : PlugC) (hl : hc.launch = .reatt
 
 /-- if `NewClient`'s default were {netrpc, grpc}, a host that never opted in to gRPC would speak it -/
 theorem default_allowed_witness :
-    compose ⟨false, true, true, true, true⟩ pGood ⟨.dflt, .none, false, .cmd⟩ ⟨true, .none, true, false⟩ = .works ∧
+    compose ⟨false, true, true, true, true, true⟩ pGood ⟨.dflt, .none, false, .cmd⟩ ⟨true, .none, true, false⟩ = .works ∧
     expected ⟨.dflt, .none, false, .cmd⟩ ⟨true, .none, true, false⟩ = .startErr .protocol := by decide
 
 /-- if Reattach + multiplexing were not refused, the client would go on without multiplexing set up -/
 theorem reattach_mux_witness :
-    compose ⟨true, false, true, true, true⟩ pGood ⟨.both, .none, true, .reattach⟩ ⟨true, .none, true, false⟩ = .works ∧
+    compose ⟨true, false, true, true, true, true⟩ pGood ⟨.both, .none, true, .reattach⟩ ⟨true, .none, true, false⟩ = .works ∧
     expected ⟨.both, .none, true, .reattach⟩ ⟨true, .none, true, false⟩ = .startErr .optionConflict := by decide
+
+/-- if `reattach()` did not look at the allowed list, a host that never opted in to gRPC would speak gRPC to a plugin it
+reattaches to (the former defect D17) -/
+theorem reattach_allowed_witness :
+    compose ⟨true, true, true, true, true, false⟩ pGood ⟨.dflt, .none, false, .reattach⟩ ⟨true, .none, true, false⟩ = .works ∧
+    expected ⟨.dflt, .none, false, .reattach⟩ ⟨true, .none, true, false⟩ = .startErr .protocol := by decide
 
 /-- if the default allowed list were {netrpc, grpc}, a gRPC plugin would be accepted by a host that
 never opted in: the specification table says protocol error there -/
@@ -135,7 +142,9 @@ theorem never_downgraded_line (I : Interop.Params) (P : Handshake.Params)
   split
   · simp
   · split
-    · exact connect_not_downgraded I h1 h2 hc pc
+    · split
+      · simp
+      · exact connect_not_downgraded I h1 h2 hc pc
     · split
       · exact connect_not_downgraded I h1 h2 hc pc
       · simp
@@ -158,7 +167,9 @@ theorem works_same_security_line (I : Interop.Params) (P : Handshake.Params)
   split at h
   · simp at h
   · split at h
-    · exact connect_works_eq I h1 h2 hc pc h
+    · split at h
+      · simp at h
+      · exact connect_works_eq I h1 h2 hc pc h
     · split at h
       · exact connect_works_eq I h1 h2 hc pc h
       · simp at h
@@ -205,23 +216,23 @@ theorem automtls_ignored_fails_first_use (hc : HostC) (pc : PlugC) (ha : hc.sec 
 carries a certificate): AutoMTLS host, net/rpc plugin that ignores AutoMTLS — `Start` succeeds and the
 call completes in plaintext; the specification says first-use error. -/
 theorem auto_tls_at_start_witness :
-    compose ⟨true, true, false, true, true⟩ pGood ⟨.dflt, .auto, false, .cmd⟩ ⟨false, .none, true, true⟩ = .downgraded ∧
+    compose ⟨true, true, false, true, true, true⟩ pGood ⟨.dflt, .auto, false, .cmd⟩ ⟨false, .none, true, true⟩ = .downgraded ∧
     expected ⟨.dflt, .auto, false, .cmd⟩ ⟨false, .none, true, true⟩ = .firstUseErr := by decide
 
 /-- the same over gRPC, launched through a custom runner -/
 theorem auto_tls_at_start_witness_grpc :
-    compose ⟨true, true, false, true, true⟩ pGood ⟨.grpcOnly, .auto, true, .runner⟩ ⟨true, .none, true, true⟩ = .downgraded ∧
+    compose ⟨true, true, false, true, true, true⟩ pGood ⟨.grpcOnly, .auto, true, .runner⟩ ⟨true, .none, true, true⟩ = .downgraded ∧
     expected ⟨.grpcOnly, .auto, true, .runner⟩ ⟨true, .none, true, true⟩ = .firstUseErr := by decide
 
 /-- … while with that fact false a plugin that does answer AutoMTLS still works: the defect is invisible
 on the diagonal -/
 theorem auto_tls_at_start_invisible_on_diagonal :
-    compose ⟨true, true, false, true, true⟩ pGood ⟨.dflt, .auto, false, .cmd⟩ ⟨false, .none, true, false⟩ = .works := by decide
+    compose ⟨true, true, false, true, true, true⟩ pGood ⟨.dflt, .auto, false, .cmd⟩ ⟨false, .none, true, false⟩ = .works := by decide
 
 /-- `dialsUseTlsConfig` false (a dial path that ignores `config.TLSConfig`): a host with a static
 `TLSConfig` talks plaintext to a plaintext plugin without any error -/
 theorem dials_use_tls_witness :
-    compose ⟨true, true, true, false, true⟩ pGood ⟨.both, .static, false, .cmd⟩ ⟨true, .none, true, false⟩ = .downgraded ∧
+    compose ⟨true, true, true, false, true, true⟩ pGood ⟨.both, .static, false, .cmd⟩ ⟨true, .none, true, false⟩ = .downgraded ∧
     expected ⟨.both, .static, false, .cmd⟩ ⟨true, .none, true, false⟩ = .firstUseErr := by decide
 
 /-! ### The legacy (four-field) handshake line
@@ -259,13 +270,13 @@ theorem legacy_never_broken_or_downgraded (hc : HostC) (s : PSec) :
 /-- `allowedCheckCoversDefault` false (the check sits inside `if len(parts) >= 5`): a gRPC-only host starts
 the legacy plugin and speaks net/rpc to it -/
 theorem allowed_check_default_witness :
-    composeLegacy ⟨true, true, true, true, false⟩ pGood ⟨.grpcOnly, .none, false, .cmd⟩ .none = .works ∧
+    composeLegacy ⟨true, true, true, true, false, true⟩ pGood ⟨.grpcOnly, .none, false, .cmd⟩ .none = .works ∧
     expected ⟨.grpcOnly, .none, false, .cmd⟩ (legacyPlug .none) = .startErr .protocol := by decide
 
 /-- … while every plugin that prints the protocol field is unaffected by that fact: the defect is
 invisible in the 864-cell matrix -/
 theorem allowed_check_default_invisible_in_matrix :
-    ∀ hc ∈ allHost, ∀ pc ∈ allPlug, compose ⟨true, true, true, true, false⟩ pGood hc pc = expected hc pc := by
+    ∀ hc ∈ allHost, ∀ pc ∈ allPlug, compose ⟨true, true, true, true, false, true⟩ pGood hc pc = expected hc pc := by
   decide
 
 example : composeLegacy iGood pGood ⟨.dflt, .none, false, .cmd⟩ .none = .works := by decide
